@@ -14,6 +14,12 @@ Open Scope string_scope.
    The parts that do not hold are refuted below (C13_*_refuted) and proved with their explicit exclusions
    (C13_*_partial). *)
 Definition C13_full_statement : Prop :=
+  (* stability *)
+  (forall s k v s1 ops outs s2, py_step s (PGetItem k) = Ok (Some v, s1) -> py_run s1 ops = Ok (outs, s2) ->
+     (is_state_variable k = false -> ~ In PClear ops) -> py_step s2 (PGetItem k) = Ok (Some v, s2)) /\
+  (forall s op o s1 ops outs s2, (forall p, op <> FUnique p) ->
+     f_step fortran_casefold s op = Ok (o, s1) -> f_run fortran_casefold s1 ops = Ok (outs, s2) ->
+     f_step fortran_casefold s2 op = Ok (o, s2)) /\
   (* Python *)
   (forall s sp1 k1 v1 sp2 k2 v2, py_reach s -> py_lookup s sp1 k1 = Some v1 -> py_lookup s sp2 k2 = Some v2 ->
      (sp1 <> sp2 \/ k1 <> k2) -> v1 <> v2) /\
